@@ -62,7 +62,7 @@ fn cv(v: &CV) -> tp::ConstValue {
         CV::Bool(b) => tp::ConstValue::Bool(*b),
         CV::Path(p) => tp::ConstValue::Path(path(p)),
         CV::Str(s) => tp::ConstValue::String(tp::Literal(s.clone())),
-        CV::Int(i) => tp::ConstValue::Int(tp::IntConstant(*i)),
+        CV::Int(i) | CV::HexInt(i) => tp::ConstValue::Int(tp::IntConstant(*i)),
         CV::Double(s) => tp::ConstValue::Double(tp::DoubleConstant(Arc::from(s.as_str()))),
         CV::List(es) => tp::ConstValue::List(es.iter().map(cv).collect()),
         CV::Map(es) => tp::ConstValue::Map(es.iter().map(|(k, v)| (cv(k), cv(v))).collect()),
